@@ -145,7 +145,7 @@ def make_case(rng, variant, **over):
     K = len(mu)
     case = {
         "variant": variant, "cone": label, "W": W, "m": m, "K": K, "mu": mu, "X": stubs.grid_inputs(K, 2),
-        "eps": eps, "delta": float(over.get("delta", rng.choice([0.05, 0.1, 0.3]))),
+        "eps": eps, "delta": float(over.get("delta", rng.choice([0.05, 0.1, 0.3, 0.1, 0.05, 1e-6, 0.9, 0.999]))),  # incl. the ends of (0, 1)
         "noise_var": float(over.get("noise_var", 10 ** rng.uniform(-3, -1) * scale**2)),
         "contraction": float(over.get("contraction", rng.choice([1, 8, 32, 64]))),
         "batch": int(over.get("batch", 1 if not info.get("batch") else rng.choice([1, 1, 2, 3]))),
